@@ -28,16 +28,18 @@ theorem pool_demand_iff_available (w : World) (p : Nat) (x : Pool) (hx : w.pools
 /-- what `PoolInv` says, spelled out on the model's own data: for every pool the holder list is a well-formed
     hashheap; **the amount in use is the sum of the amounts held by the individual processes and does not exceed
     the capacity**; every holder record belongs to an existing process (key = process id + 1) and carries a positive
-    amount; and a process lists the pool among its held objects exactly when it has a record in the pool's holder list -/
+    amount; and a process lists the pool among its held objects exactly when it has a record in the pool's holder list; a record's priority
+    field is the current priority of the process it belongs to -/
 theorem pool_invariant_unfolded {w : World} (hi : PoolInv w) {pl : Nat} {x : Pool} (hx : w.pools[pl]? = some x) :
     WF holder_queue_check x.holders ∧
     x.inUse = ((abs x.holders).map (fun t => t.item.b)).sum ∧
     x.inUse ≤ x.cap ∧
     (∀ k ∈ keys (abs x.holders), ∃ pid, pid < w.procs.size ∧ k = pid + 1) ∧
     (∀ t ∈ abs x.holders, 0 < t.item.b) ∧
+    (∀ t ∈ abs x.holders, t.i = (w.proc (t.key - 1)).prio) ∧
     (∀ q, HoldRef.pool pl ∈ (w.proc q).held ↔ q + 1 ∈ keys (abs x.holders)) := by
   obtain ⟨ok, lk⟩ := hi.2 pl x.view (poolView_of_get hx)
-  exact ⟨ok.wf, ok.sum, ok.inCap, ok.tags, ok.pos, lk⟩
+  exact ⟨ok.wf, ok.sum, ok.inCap, ok.tags, ok.pos, ok.prio, lk⟩
 
 /-- the invariant that is preserved is `PoolFull` = `PoolInv` together with: every process suspended inside a pool
     acquisition (frame `.pool pl rem …`) still has a positive outstanding claim `rem` -/
@@ -82,10 +84,12 @@ theorem pool_invariant_initial (w : World) (hn : w.procs.size < 2 ^ 31)
   obtain ⟨s, hinit, hwf, habs⟩ := CimbaModel.Props.C02.init_WF (lt := holder_queue_check) e he1 he31
   have hs : x.holders = s := by rw [hh]; unfold mkHH; rw [hinit]
   constructor
-  · refine ⟨⟨by show WF _ x.holders; rw [hs]; exact hwf, ?_, ?_⟩, ?_, ?_⟩
+  · refine ⟨⟨by show WF _ x.holders; rw [hs]; exact hwf, ?_, ?_, ?_⟩, ?_, ?_⟩
     · intro k hk
       have : keys (abs x.holders) = [] := by rw [hs, habs]; rfl
       rw [show x.view.holders = x.holders from rfl, this] at hk; cases hk
+    · intro t ht
+      rw [show x.view.holders = x.holders from rfl, hs, habs] at ht; cases ht
     · intro t ht
       rw [show x.view.holders = x.holders from rfl, hs, habs] at ht; cases ht
     · show x.inUse = amounts (abs x.holders)
